@@ -47,6 +47,8 @@ def registration(info, ifaces, case, inpkg):
                 continue
             inst = render_targs(i["targs"][0], imports)
         sn = struct_name(i)
+        td = dict(case.get("td") or {})
+        td.update((case.get("td_by_name") or {}).get(i["name"]) or {})
         if case["template"] == "matryer":
             ctor = "func(t drvT) any { return &%s%s{} }" % (sn, inst)
         else:
